@@ -75,6 +75,8 @@ def judge_validate(o, go, m, compare_targets=True, compare_log=True):
     mo = m["model"]
     H = m.get("H") or []
     gout, mout = go.get("outcome"), mo.get("outcome")
+    if mout == "uncertified":
+        return "violation:model", "a resolved, guarded environment is not ranked/closed (the hypothesis of the definedness theorems): %r" % (mo,)
     exp = (o.get("meta") or {}).get("expect")
     # H lists the known-finding classes the document falls in (D4: a key that case-folds onto a keyword). The model reproduces
     # encoding/json's case-insensitive field matching, so inside those classes too the real package must do what the model does:
